@@ -96,3 +96,15 @@ func hashValue(v reflect.Value, depth int) uint64 {
 	}
 	return 43
 }
+
+// ContentEqual compares two values by content (pointers by pointee, maps by entries, funcs/chans/unsafe pointers
+// by nil-ness): the equality under which two runs of a deterministic function that allocates fresh objects agree.
+func ContentEqual(a, b reflect.Value) bool {
+	if a.IsValid() != b.IsValid() {
+		return false
+	}
+	if !a.IsValid() {
+		return true
+	}
+	return a.Type() == b.Type() && hashValue(a, 0) == hashValue(b, 0)
+}
